@@ -2,6 +2,7 @@ package rules
 
 import (
 	"fmt"
+	"sort"
 	"go/ast"
 	"go/token"
 	"go/types"
@@ -18,6 +19,7 @@ type pf1Site struct {
 	expr string // locals replaced by their types (rename-stable key)
 	raw  string // as written (for messages)
 	res  core.BoundsResult
+	pre  string // non-empty: discharged through a precondition verified at every call site
 }
 
 // pf1Sites enumerates and decides the panic obligations of one function
@@ -29,6 +31,7 @@ func (c *Ctx) pf1Sites(f *core.Func) []*pf1Site {
 	}
 	var out []*pf1Site
 	fa := core.NewFacts(f)
+	fa.MinLenAxiom = c.minLenAxiom(f.Info())
 	info := f.Info()
 	seen := map[ast.Node]bool{}
 	fa.Run(func(n ast.Node, st *core.State) {
@@ -102,7 +105,291 @@ func (c *Ctx) pf1Sites(f *core.Func) []*pf1Site {
 		return true
 	})
 	c.cache[key] = out
+	c.pf1Preconditions(f, out)
 	return out
+}
+
+// minLenAxiom returns the length invariants that hold for every value the
+// library itself builds, whichever function looks at it.  Each has a producer
+// rule that runs in the same checks (GR3 for the AST shapes; the ExecEnv
+// assumption is listed in the evidence).
+func (c *Ctx) minLenAxiom(info *types.Info) func(e ast.Expr) (int, string) {
+	nonEmpty := map[string]bool{"CmdSubst.List": true}
+	for _, f := range requiredNonEmptyFields {
+		nonEmpty[f] = true
+	}
+	return func(e ast.Expr) (int, string) {
+		if tv, ok := info.Types[e]; ok && tv.Type != nil && namedTypeName(tv.Type) == "ast.List" {
+			return 1, "list-nonempty"
+		}
+		if se, ok := e.(*ast.SelectorExpr); ok {
+			if v := core.FieldOf(info, se); v != nil && v.Pkg() != nil {
+				if sel := info.Selections[se]; sel != nil {
+					owner := namedTypeName(sel.Recv())
+					owner = strings.TrimPrefix(owner, "*")
+					switch {
+					case strings.HasPrefix(owner, "ast.") && nonEmpty[strings.TrimPrefix(owner, "ast.")+"."+v.Name()]:
+						return 1, "compound-list-nonempty"
+					case owner == "interp.ExecEnv" && v.Name() == "Args":
+						return 1, "args-nonempty"
+					}
+				}
+			}
+		}
+		return 0, ""
+	}
+}
+
+// pf1Preconditions tries to discharge the failing index/slice sites of f
+// whose missing fact is "this parameter is non-empty": the function is
+// re-analysed under that assumption and the assumption is then verified at
+// every call site (recursively when the argument is the caller's own
+// parameter).  This is what makes the verdict independent of where a piece of
+// code lives: extracting a helper moves the obligation to the call site.
+func (c *Ctx) pf1Preconditions(f *core.Func, sites []*pf1Site) {
+	var failing []*pf1Site
+	for _, s := range sites {
+		if !s.res.OK && (s.kind == "IDX" || s.kind == "SLC") {
+			failing = append(failing, s)
+		}
+	}
+	if len(failing) == 0 || f.Type.Params == nil {
+		return
+	}
+	info := f.Info()
+	var params []*types.Var
+	for _, fld := range f.Type.Params.List {
+		for _, id := range fld.Names {
+			if v, ok := info.Defs[id].(*types.Var); ok {
+				switch u := v.Type().Underlying().(type) {
+				case *types.Slice:
+					params = append(params, v)
+				case *types.Basic:
+					if u.Info()&types.IsString != 0 {
+						params = append(params, v)
+					}
+				}
+			}
+		}
+	}
+	for _, p := range params {
+		// does assuming len(p) >= 1 help?
+		fa := core.NewFacts(f)
+		fa.MinLenAxiom = c.minLenAxiom(info)
+		fa.AssumeMinLen = map[*types.Var]int{p: 1}
+		helped := map[*pf1Site]core.BoundsResult{}
+		fa.Run(func(n ast.Node, st *core.State) {
+			for _, s := range failing {
+				if s.node == n && !s.res.OK {
+					r := decide(fa, info, s.kind, n, st, c)
+					if prev, seen := helped[s]; !seen || (prev.OK && !r.OK) {
+						helped[s] = r
+					}
+				}
+			}
+		})
+		any := false
+		for _, r := range helped {
+			if r.OK {
+				any = true
+			}
+		}
+		if !any {
+			continue
+		}
+		ok, why := c.paramNonEmpty(f, p, map[*core.Func]bool{}, 0)
+		if !ok {
+			continue
+		}
+		for s, r := range helped {
+			if r.OK {
+				s.res = r
+				s.pre = fmt.Sprintf("len(%s) >= 1 at every call: %s", p.Name(), why)
+			}
+		}
+	}
+}
+
+// paramNonEmpty verifies that every call of f passes a provably non-empty
+// value for parameter p.
+func (c *Ctx) paramNonEmpty(f *core.Func, p *types.Var, visiting map[*core.Func]bool, depth int) (bool, string) {
+	if depth > 3 || visiting[f] {
+		return false, ""
+	}
+	visiting[f] = true
+	defer delete(visiting, f)
+	idx := -1
+	k := 0
+	for _, fld := range f.Type.Params.List {
+		for _, id := range fld.Names {
+			if f.Info().Defs[id] == types.Object(p) {
+				idx = k
+			}
+			k++
+		}
+	}
+	if idx < 0 {
+		return false, ""
+	}
+	calls, complete := c.callSitesOf(f)
+	if !complete || len(calls) == 0 {
+		return false, ""
+	}
+	var whys []string
+	for _, cs := range calls {
+		if idx >= len(cs.call.Args) || cs.call.Ellipsis.IsValid() {
+			return false, ""
+		}
+		arg := ast.Unparen(cs.call.Args[idx])
+		st, fa := c.stateAtCall(cs.in, cs.call)
+		if fa == nil {
+			return false, ""
+		}
+		if ok, why := fa.ProveMinLen(arg, st, 1); ok {
+			whys = append(whys, cs.in.Short+": "+why)
+			continue
+		}
+		// the caller's own parameter: recurse
+		if id, isID := arg.(*ast.Ident); isID {
+			if v, isVar := cs.in.Info().Uses[id].(*types.Var); isVar && isParamOf(cs.in, v) && !assignedIn(cs.in, v) {
+				if ok, why := c.paramNonEmpty(cs.in, v, visiting, depth+1); ok {
+					whys = append(whys, cs.in.Short+" <- "+why)
+					continue
+				}
+			}
+		}
+		return false, ""
+	}
+	sort.Strings(whys)
+	if len(whys) > 3 {
+		whys = append(whys[:3], fmt.Sprintf("... (%d call sites)", len(calls)))
+	}
+	return true, strings.Join(whys, "; ")
+}
+
+type callSite struct {
+	in   *core.Func
+	call *ast.CallExpr
+}
+
+// callSitesOf lists the calls of f.  complete is false when f may be called
+// from somewhere the analysis does not see (exported, or used as a value).
+func (c *Ctx) callSitesOf(f *core.Func) (calls []callSite, complete bool) {
+	key := "callsites:" + f.Name
+	type res struct {
+		calls    []callSite
+		complete bool
+	}
+	if v, ok := c.cache[key]; ok {
+		r := v.(res)
+		return r.calls, r.complete
+	}
+	complete = true
+	var target types.Object
+	if f.Decl != nil {
+		if f.Obj == nil || f.Obj.Exported() {
+			complete = false
+		}
+		target = f.Obj
+	} else {
+		// a literal bound to a local variable: `name := func(...) {...}`
+		if as, ok := c.P.Parent(f.Lit).(*ast.AssignStmt); ok && len(as.Lhs) == 1 && len(as.Rhs) == 1 && as.Rhs[0] == ast.Expr(f.Lit) {
+			if id, ok := as.Lhs[0].(*ast.Ident); ok {
+				target = f.Info().Defs[id]
+			}
+		}
+		if target == nil {
+			complete = false
+		}
+	}
+	if target != nil {
+		for _, g := range c.P.Funcs {
+			if g.Pkg != f.Pkg && !(f.Obj != nil && f.Obj.Exported()) {
+				continue
+			}
+			info := g.Info()
+			g.OwnNodes(func(n ast.Node) bool {
+				id, ok := n.(*ast.Ident)
+				if !ok || info.Uses[id] != target {
+					return true
+				}
+				var fun ast.Node = id
+				if se, isSel := c.P.Parent(id).(*ast.SelectorExpr); isSel && se.Sel == id {
+					fun = se
+				}
+				call, isCall := c.P.Parent(fun).(*ast.CallExpr)
+				if !isCall || call.Fun != fun {
+					complete = false
+					return true
+				}
+				calls = append(calls, callSite{in: g, call: call})
+				return true
+			})
+		}
+	}
+	c.cache[key] = res{calls, complete}
+	return
+}
+
+// stateAtCall returns the abstract state holding before the call (after its
+// operands) in function g.
+func (c *Ctx) stateAtCall(g *core.Func, call *ast.CallExpr) (*core.State, *core.Facts) {
+	key := "callstates:" + g.Name
+	type res struct {
+		fa *core.Facts
+		st map[*ast.CallExpr]*core.State
+	}
+	var r res
+	if v, ok := c.cache[key]; ok {
+		r = v.(res)
+	} else {
+		r.fa = core.NewFacts(g)
+		r.fa.MinLenAxiom = c.minLenAxiom(g.Info())
+		r.st = map[*ast.CallExpr]*core.State{}
+		seen := map[*ast.CallExpr]bool{}
+		r.fa.Run(func(n ast.Node, st *core.State) {
+			if ce, ok := n.(*ast.CallExpr); ok {
+				if seen[ce] {
+					r.st[ce] = core.JoinStates(r.st[ce], st)
+				} else {
+					seen[ce] = true
+					r.st[ce] = core.CloneState(st)
+				}
+			}
+		})
+		c.cache[key] = r
+	}
+	st, ok := r.st[call]
+	if !ok {
+		// never visited: unreachable code
+		return nil, r.fa
+	}
+	return st, r.fa
+}
+
+// assignedIn reports whether v is assigned anywhere in f (then its entry
+// value is not what reaches the call).
+func assignedIn(f *core.Func, v *types.Var) bool {
+	info := f.Info()
+	found := false
+	ast.Inspect(f.Body, func(n ast.Node) bool {
+		switch x := n.(type) {
+		case *ast.AssignStmt:
+			for _, l := range x.Lhs {
+				if id, ok := ast.Unparen(l).(*ast.Ident); ok && info.Uses[id] == types.Object(v) {
+					found = true
+				}
+			}
+		case *ast.UnaryExpr:
+			if x.Op == token.AND {
+				if id, ok := ast.Unparen(x.X).(*ast.Ident); ok && info.Uses[id] == types.Object(v) {
+					found = true
+				}
+			}
+		}
+		return true
+	})
+	return found
 }
 
 func funIdentOf(e ast.Expr) *ast.Ident {
@@ -138,6 +425,16 @@ func decide(fa *core.Facts, info *types.Info, kind string, n ast.Node, st *core.
 			if tt, ok := info.Types[ta.Type]; ok {
 				if it, ok := tt.Type.Underlying().(*types.Interface); ok && types.Implements(tv.Type, it) && false {
 					return core.BoundsResult{OK: true, Why: "static type implements the target interface"}
+				}
+			}
+		}
+		// the generated parser hands its yyLexer straight to the actions and the tail
+		// functions; YY1 checks that yyParse is only ever given a *lexer
+		if tv, ok := info.Types[ta.X]; ok && tv.Type != nil {
+			if tt, ok := info.Types[ta.Type]; ok && tt.Type != nil {
+				xn, tn := namedTypeName(tv.Type), namedTypeName(tt.Type)
+				if strings.HasSuffix(xn, ".yyLexer") && tn == "*"+strings.TrimSuffix(xn, "yyLexer")+"lexer" {
+					return core.BoundsResult{OK: true, Inv: "yylex-is-lexer", Why: "the yyLexer given to yyParse is always a *lexer (YY1)"}
 				}
 			}
 		}
@@ -211,6 +508,14 @@ func runPF1(c *Ctx, rr *core.RuleResult, scope map[*core.Func]bool, fatal map[*c
 			where := ""
 			if fatal != nil && fatal[f] {
 				where = " [runs in a lexer goroutine: a panic here kills the process]"
+			}
+			if s.res.OK && s.pre != "" {
+				rr.OK(f, key, s.node.Pos(), "precondition", s.res.Why+" with "+s.pre)
+				continue
+			}
+			if s.res.OK && s.res.Inv != "" {
+				rr.OK(f, key, s.node.Pos(), "invariant:"+s.res.Inv, s.res.Why)
+				continue
 			}
 			if s.res.OK {
 				o := rr.OK(f, key, s.node.Pos(), "guard", s.res.Why)
